@@ -162,6 +162,19 @@ func (g *Grammar) GoBuildFunc(prefix, fname string, unions []Union) string {
 	sb.WriteString("\ts1 := p.String()\n")
 	fmt.Fprintf(&sb, "\tif sp, err := participle.ParserForProduction[%s](p); err == nil {\n\t\t_ = sp.String()\n\t}\n", ProdName(prefix, len(g.Prods)-1))
 	sb.WriteString("\tif s2 := p.String(); s2 != s1 {\n\t\treturn s1 + \"\\n\\nVERIF-STRING-CHANGED after ParserForProduction:\\n\" + s2, nil\n\t}\n")
+	// ... nor on what the parser was used for in between: failed parses whose messages print parts of the grammar
+	inputs := []string{"", "a", "1", "a 1", "1 a", "a a a a", "( a", "a )"}
+	seenLit := map[string]bool{}
+	for _, pr := range g.Prods {
+		pr.Expr.Walk(func(e *Expr) {
+			if e.Kind == KLit && e.S != "" && !seenLit[e.S] && len(seenLit) < 6 {
+				seenLit[e.S] = true
+				inputs = append(inputs, e.S, e.S+" a", e.S+" "+e.S, "a "+e.S+" 1")
+			}
+		})
+	}
+	fmt.Fprintf(&sb, "\tfor _, in := range []string{%s} {\n\t\tif _, err := p.ParseString(\"\", in); err != nil {\n\t\t\t_ = err.Error()\n\t\t}\n\t}\n", quoteList(inputs))
+	sb.WriteString("\tif s3 := p.String(); s3 != s1 {\n\t\treturn s1 + \"\\n\\nVERIF-STRING-CHANGED after failed parses:\\n\" + s3, nil\n\t}\n")
 	sb.WriteString("\treturn s1, nil\n}\n")
 	return sb.String()
 }
